@@ -1,4 +1,5 @@
 """C20 - static slots are time independent; pull-based components are served on demand."""
+import os
 from datetime import timedelta
 
 import numpy as np
@@ -34,9 +35,33 @@ ASSUMPTIONS = [
 
 # ------------------------------------------------------------------ (a) static slots
 def check_static(case, ctx):
+    import shutil
+    import tempfile
+
     import finam as fm
 
     link = _static_link(case)
+    spill = None
+    if case.get("limit") is not None:
+        # the single publication of a static output may live on disk as well
+        spill = tempfile.mkdtemp(prefix="vf-c20-")
+        for s in [link.out] + link.adapters:
+            s.memory_limit = case["limit"]
+            s.memory_location = spill
+        ctx.event("static-with-memory-limit")
+    try:
+        _check_static(case, ctx, link)
+        link.out.finalize()
+        if spill is not None and os.listdir(spill):
+            ctx.violation("static-spill-file-left", f"files left after finalize: {os.listdir(spill)[:2]}")
+    finally:
+        if spill is not None:
+            shutil.rmtree(spill, ignore_errors=True)
+
+
+def _check_static(case, ctx, link):
+    import finam as fm
+
     asked = []
     orig = link.out.get_data
 
@@ -153,7 +178,8 @@ def static_case(draw):
             ops.append(["push", draw(st.integers(0, 50)), draw(st.booleans()), draw(st.integers(0, 500))])
         else:
             ops.append(["pull", draw(st.integers(0, 2)), draw(st.one_of(st.none(), st.integers(-500, 5000)))])
-    return {"chain": chain, "n_in": n_in, "static_in": [draw(st.booleans()) for _ in range(3)], "ops": ops}
+    return {"chain": chain, "n_in": n_in, "static_in": [draw(st.booleans()) for _ in range(3)], "ops": ops,
+            "limit": draw(st.sampled_from([None, None, 0, 8, 1000]))}
 
 
 # ------------------------------------------------------------------ (b) pull-based components
